@@ -449,4 +449,344 @@ theorem delimitLoop_geo (nh : Bool) :
       List.nil_append]
     rfl
 
+/-! ## Part 2: what the writer with automatic positions writes -/
+
+def leadPad (wd : Char → Nat) (f : Field) (w : Nat) : Nat :=
+  match f.align with
+  | .left => 0
+  | .right => w - byteSize wd f.contents
+  | .center => (w - byteSize wd f.contents) / 2
+
+def trailPad (wd : Char → Nat) (f : Field) (w : Nat) : Nat := w - byteSize wd f.contents - leadPad wd f w
+
+def fieldText (wd : Char → Nat) (f : Field) (w : Nat) : List Char :=
+  pad (leadPad wd f w) ++ f.contents ++ pad (trailPad wd f w)
+
+theorem addField_eq (wd : Char → Nat) (f : Field) (w : Nat) (h : byteSize wd f.contents ≤ w) :
+    addField wd f w = .ok (fieldText wd f w) := by
+  unfold addField fieldText trailPad leadPad
+  have : ¬ w < byteSize wd f.contents := by omega
+  simp only [this, if_false]
+  cases f.align <;> simp [pad]
+
+theorem leadPad_le (wd : Char → Nat) (f : Field) (w : Nat) : leadPad wd f w ≤ w - byteSize wd f.contents := by
+  unfold leadPad
+  cases f.align <;> simp <;> omega
+
+/-- the line of one record: the fields padded to the widths, one blank between them -/
+def lineOf (wd : Char → Nat) : Bool → List Nat → List Field → List Char
+  | _, [], _ => []
+  | _, _ :: _, [] => []
+  | first, w :: ws, f :: fs => (if first then [] else [' ']) ++ (fieldText wd f w ++ lineOf wd false ws fs)
+
+/-- every width is positive and every text fits -/
+def AllFit (wd : Char → Nat) : List Nat → List Field → Prop
+  | [], [] => True
+  | w :: ws, f :: fs => 1 ≤ w ∧ byteSize wd f.contents ≤ w ∧ AllFit wd ws fs
+  | _, _ => False
+
+theorem writeFields_lineOf (wd : Char → Nat) :
+    ∀ (ws : List Nat) (fs : List Field) (first : Bool) (start : Nat) (txt : List Char), fs.length = ws.length →
+      writeFields wd true first start (positionsOf start ws) fs = .ok txt →
+      txt = lineOf wd first ws fs ∧ AllFit wd ws fs := by
+  intro ws
+  induction ws with
+  | nil =>
+    intro fs first start txt hlen h
+    cases fs with
+    | nil => simp only [positionsOf, writeFields] at h; injection h with h; subst h; exact ⟨rfl, trivial⟩
+    | cons f fs => simp at hlen
+  | cons w ws ih =>
+    intro fs first start txt hlen h
+    cases fs with
+    | nil => simp at hlen
+    | cons f fs =>
+      simp only [positionsOf] at h
+      unfold writeFields at h
+      by_cases hle : start + w ≤ start
+      · simp [hle] at h
+      · simp only [hle, if_false, List.tail_cons, Bool.true_and] at h
+        have hw1 : 1 ≤ w := by omega
+        have hsub : start + w - start = w := by omega
+        rw [hsub] at h
+        cases ha : addField wd f w with
+        | error e => rw [ha] at h; simp at h
+        | ok s =>
+          rw [ha] at h
+          simp only at h
+          have hfit : byteSize wd f.contents ≤ w := (addField_isOk wd f w).mp ⟨s, ha⟩
+          rw [addField_eq wd f w hfit] at ha
+          injection ha with ha
+          subst ha
+          cases hr : writeFields wd true false (start + w) (positionsOf (start + w) ws) fs with
+          | error e => rw [hr] at h; simp at h
+          | ok r =>
+            rw [hr] at h
+            simp only at h
+            injection h with h
+            obtain ⟨h1, h2⟩ := ih fs false (start + w) r (by simpa using hlen) hr
+            subst h1
+            refine ⟨?_, hw1, hfit, h2⟩
+            rw [← h]
+            cases first <;> simp [lineOf]
+
+/-! ## the blank runs of such a line -/
+
+theorem lineScan_append (wd : Char → Nat) (a b : List Char) (σ : LS) :
+    lineScan wd σ (a ++ b) = lineScan wd (lineScan wd σ a) b := by
+  induction a generalizing σ with
+  | nil => rfl
+  | cons c cs ih => simp only [List.cons_append, lineScan]; exact ih _
+
+def NoSpace (s : List Char) : Prop := ∀ c ∈ s, isSpace c = false
+
+/-- the scan stands at byte `p` (1-based, next to read), the last value ended at `g - 1`, the blank runs found
+    so far are `S` -/
+def ScanInv (σ : LS) (p g : Int) (S : List Space) : Prop :=
+  σ.linePos = p ∧ σ.spaces = S ∧ 1 < g ∧
+  ((g < p ∧ σ.inSpace = true ∧ σ.startPos = g) ∨ (g = p ∧ σ.inSpace = false))
+
+theorem lineEnd_inv (σ : LS) (p g : Int) (S : List Space) (h : ScanInv σ p g S) :
+    lineEnd σ = S.reverse ++ [⟨g, -1⟩] := by
+  obtain ⟨h1, h2, h3, h4⟩ := h
+  unfold lineEnd
+  rcases h4 with ⟨_, hb, hs⟩ | ⟨hg, hb⟩
+  · simp [hb, hs, h2, h3]
+  · simp [hb, h1, h2, ← hg, h3]
+
+theorem scan_nospace (wd : Char → Nat) (c : List Char) (hc : NoSpace c) (σ : LS) (hb : σ.inSpace = false) :
+    lineScan wd σ c = { σ with linePos := σ.linePos + (byteSize wd c : Int) } := by
+  induction c generalizing σ with
+  | nil => simp [lineScan, byteSize]
+  | cons x xs ih =>
+    have hx : isSpace x = false := hc x (by simp)
+    simp only [lineScan]
+    have hstep : lineStep wd σ x = { σ with linePos := σ.linePos + (wd x : Int) } := by
+      simp [lineStep, hx, hb]
+    rw [hstep, ih (fun y hy => hc y (by simp [hy])) ⟨σ.linePos + (wd x : Int), σ.startPos, σ.inSpace, σ.spaces⟩ hb]
+    simp only [byteSize, Int.natCast_add]
+    congr 1
+    omega
+
+theorem scan_pad_in (wd : Char → Nat) (hw : wd ' ' = 1) (k : Nat) (σ : LS) (hb : σ.inSpace = true) :
+    lineScan wd σ (pad k) = { σ with linePos := σ.linePos + (k : Int) } := by
+  induction k generalizing σ with
+  | zero => simp [pad, lineScan]
+  | succ k ih =>
+    have hp : pad (k + 1) = ' ' :: pad k := by simp [pad, List.replicate_succ]
+    rw [hp]
+    simp only [lineScan]
+    have hstep : lineStep wd σ ' ' = { σ with linePos := σ.linePos + 1 } := by
+      simp [lineStep, isSpace_blank, hb, hw]
+    rw [hstep, ih ⟨σ.linePos + 1, σ.startPos, σ.inSpace, σ.spaces⟩ hb]
+    simp only [Int.natCast_add, Int.natCast_one]
+    congr 1
+    omega
+
+theorem scan_pad_out (wd : Char → Nat) (hw : wd ' ' = 1) (k : Nat) (σ : LS) (hb : σ.inSpace = false) :
+    lineScan wd σ (pad (k + 1)) = { σ with linePos := σ.linePos + ((k + 1 : Nat) : Int), inSpace := true, startPos := σ.linePos } := by
+  have hp : pad (k + 1) = ' ' :: pad k := by simp [pad, List.replicate_succ]
+  rw [hp]
+  simp only [lineScan]
+  have hstep : lineStep wd σ ' ' = { σ with linePos := σ.linePos + 1, inSpace := true, startPos := σ.linePos } := by
+    simp [lineStep, isSpace_blank, hb, hw]
+  rw [hstep, scan_pad_in wd hw k _ rfl]
+  simp only [Int.natCast_add, Int.natCast_one]
+  congr 1
+  omega
+
+/-- blanks, then a value, then blanks: one more blank run is recorded (unless it starts the line) -/
+theorem scan_column (wd : Char → Nat) (hw : wd ' ' = 1) (x : Nat) (c : List Char) (y : Nat) (hc : NoSpace c)
+    (hne : c ≠ []) (σ : LS) (p g : Int) (S : List Space) (hinv : ScanInv σ p g S) (hx : 1 ≤ x) :
+    ScanInv (lineScan wd σ (pad x ++ (c ++ pad y))) (p + x + byteSize wd c + y) (p + x + byteSize wd c)
+      (⟨g, p + x - 1⟩ :: S) := by
+  obtain ⟨h1, h2, h3, h4⟩ := hinv
+  -- after the blanks: in a blank run that began at g
+  have hA : ∃ σ1, lineScan wd σ (pad x) = σ1 ∧ σ1.linePos = p + x ∧ σ1.spaces = S ∧ σ1.inSpace = true ∧ σ1.startPos = g := by
+    rcases h4 with ⟨_, hb, hs⟩ | ⟨hg, hb⟩
+    · exact ⟨_, scan_pad_in wd hw x σ hb, by simp [h1], h2, hb, hs⟩
+    · obtain ⟨x', rfl⟩ : ∃ x', x = x' + 1 := ⟨x - 1, by omega⟩
+      exact ⟨_, scan_pad_out wd hw x' σ hb, by simp [h1], h2, rfl, by simp [h1, hg]⟩
+  obtain ⟨σ1, e1, a1, a2, a3, a4⟩ := hA
+  -- the first character of the value closes the blank run
+  obtain ⟨c0, cs, rfl⟩ : ∃ c0 cs, c = c0 :: cs := by
+    cases c with
+    | nil => exact absurd rfl hne
+    | cons c0 cs => exact ⟨c0, cs, rfl⟩
+  have hc0 : isSpace c0 = false := hc c0 (by simp)
+  have hstep : lineStep wd σ1 c0 = ⟨p + x + (wd c0 : Int), g, false, ⟨g, p + x - 1⟩ :: S⟩ := by
+    simp [lineStep, hc0, a1, a2, a3, a4, h3]
+  have hB : lineScan wd σ1 (c0 :: cs) = ⟨p + x + (byteSize wd (c0 :: cs) : Int), g, false, ⟨g, p + x - 1⟩ :: S⟩ := by
+    simp only [lineScan, hstep]
+    rw [scan_nospace wd cs (fun z hz => hc z (by simp [hz])) _ rfl]
+    simp only [byteSize, Int.natCast_add]
+    congr 1
+    omega
+  rw [lineScan_append, e1, lineScan_append, hB]
+  have hpos : (0 : Int) < byteSize wd (c0 :: cs) ∨ True := Or.inr trivial
+  cases y with
+  | zero =>
+    simp only [pad, List.replicate_zero, lineScan]
+    refine ⟨by simp, rfl, ?_, Or.inr ⟨by simp, rfl⟩⟩
+    omega
+  | succ y =>
+    rw [scan_pad_out wd hw y _ rfl]
+    refine ⟨by simp, rfl, ?_, Or.inl ⟨?_, rfl, rfl⟩⟩
+    · omega
+    · simp only [Int.natCast_add, Int.natCast_one]; omega
+
+theorem scan_column0 (wd : Char → Nat) (hwd : ∀ c, 1 ≤ wd c) (hw : wd ' ' = 1) (a : Nat) (c : List Char) (y : Nat) (hc : NoSpace c)
+    (hne : c ≠ []) :
+    ScanInv (lineScan wd {} (pad a ++ (c ++ pad y))) (1 + a + byteSize wd c + y) (1 + a + byteSize wd c) [] := by
+  obtain ⟨c0, cs, rfl⟩ : ∃ c0 cs, c = c0 :: cs := by
+    cases c with
+    | nil => exact absurd rfl hne
+    | cons c0 cs => exact ⟨c0, cs, rfl⟩
+  have hc0 : isSpace c0 = false := hc c0 (by simp)
+  have hsz : 1 ≤ byteSize wd (c0 :: cs) := byteSize_pos wd hwd _ (by simp)
+  -- after the leading blanks and the value
+  have hB : lineScan wd (lineScan wd {} (pad a)) (c0 :: cs)
+      = ⟨1 + a + (byteSize wd (c0 :: cs) : Int), 1, false, []⟩ := by
+    cases a with
+    | zero =>
+      simp only [pad, List.replicate_zero, lineScan]
+      have hstep : lineStep wd {} c0 = ⟨1 + (wd c0 : Int), 1, false, []⟩ := by simp [lineStep, hc0]
+      rw [hstep, scan_nospace wd cs (fun z hz => hc z (by simp [hz])) _ rfl]
+      simp only [byteSize, Int.natCast_add]
+      congr 1
+      omega
+    | succ a =>
+      have e0 : lineScan wd {} (pad (a + 1)) = ⟨1 + ((a + 1 : Nat) : Int), 1, true, []⟩ := by
+        rw [scan_pad_out wd hw a {} rfl]
+      rw [e0]
+      simp only [lineScan]
+      have hstep : lineStep wd ⟨1 + ((a + 1 : Nat) : Int), 1, true, []⟩ c0
+          = ⟨1 + ((a + 1 : Nat) : Int) + (wd c0 : Int), 1, false, []⟩ := by simp [lineStep, hc0]
+      rw [hstep, scan_nospace wd cs (fun z hz => hc z (by simp [hz])) _ rfl]
+      simp only [byteSize, Int.natCast_add]
+      congr 1
+      omega
+  rw [lineScan_append, lineScan_append, hB]
+  have hpos : 1 ≤ wd c0 ∨ True := Or.inr trivial
+  cases y with
+  | zero =>
+    simp only [pad, List.replicate_zero, lineScan]
+    refine ⟨by simp, rfl, ?_, Or.inr ⟨by simp, rfl⟩⟩
+    omega
+  | succ y =>
+    rw [scan_pad_out wd hw y _ rfl]
+    refine ⟨by simp, rfl, ?_, Or.inl ⟨?_, rfl, rfl⟩⟩
+    · omega
+    · simp only [Int.natCast_add, Int.natCast_one]; omega
+
+/-- the remaining columns begin at their first byte -/
+def Flush (wd : Char → Nat) : List Nat → List Field → Prop
+  | w :: ws, f :: fs => leadPad wd f w = 0 ∧ Flush wd ws fs
+  | _, _ => True
+
+def tailEnds (wd : Char → Nat) : Int → List Nat → List Field → List Int
+  | p, w :: ws, f :: fs => (p + byteSize wd f.contents) :: tailEnds wd (p + w + 1) ws fs
+  | _, _, _ => []
+
+def tailSeps : Int → List Nat → List Int
+  | _, [] => []
+  | p, w :: ws => p :: tailSeps (p + w + 1) ws
+
+def CellsOK (fs : List Field) : Prop := ∀ f ∈ fs, NoSpace f.contents ∧ f.contents ≠ []
+
+theorem scan_tail (wd : Char → Nat) (hw : wd ' ' = 1) :
+    ∀ (ws : List Nat) (fs : List Field) (σ : LS) (p g : Int) (S : List Space), fs.length = ws.length →
+      AllFit wd ws fs → Flush wd ws fs → CellsOK fs → ScanInv σ p g S →
+      lineEnd (lineScan wd σ (lineOf wd false ws fs))
+        = S.reverse ++ mkSpaces ((g - 1) :: tailEnds wd p ws fs) (tailSeps p ws) := by
+  intro ws
+  induction ws with
+  | nil =>
+    intro fs σ p g S hlen _ _ _ hinv
+    cases fs with
+    | nil =>
+      simp only [lineOf, lineScan, tailEnds, tailSeps, mkSpaces]
+      rw [lineEnd_inv σ p g S hinv]
+      simp
+    | cons f fs => simp at hlen
+  | cons w ws ih =>
+    intro fs σ p g S hlen hfit hfl hok hinv
+    cases fs with
+    | nil => simp at hlen
+    | cons f fs =>
+      simp only [AllFit] at hfit
+      simp only [Flush] at hfl
+      obtain ⟨hw1, hsz, hfit'⟩ := hfit
+      obtain ⟨hl0, hfl'⟩ := hfl
+      obtain ⟨hns, hne⟩ := hok f (by simp)
+      have htext : lineOf wd false (w :: ws) (f :: fs)
+          = (pad 1 ++ (f.contents ++ pad (w - byteSize wd f.contents))) ++ lineOf wd false ws fs := by
+        simp [lineOf, fieldText, trailPad, hl0, pad]
+      have hcol := scan_column wd hw 1 f.contents (w - byteSize wd f.contents) hns hne σ p g S hinv (Nat.le_refl 1)
+      rw [htext, lineScan_append]
+      have e1 : p + ((1 : Nat) : Int) + (byteSize wd f.contents : Int) + ((w - byteSize wd f.contents : Nat) : Int) = p + w + 1 := by
+        omega
+      have e2 : p + ((1 : Nat) : Int) - 1 = p := by omega
+      rw [e1, e2] at hcol
+      rw [ih fs _ (p + w + 1) _ _ (by simpa using hlen) hfit' hfl' (fun x hx => hok x (by simp [hx])) hcol]
+      have e3 : p + ((1 : Nat) : Int) + (byteSize wd f.contents : Int) - 1 = p + byteSize wd f.contents := by omega
+      simp only [tailEnds, tailSeps, e3, List.reverse_cons, List.append_assoc, List.cons_append, List.nil_append]
+      cases ws with
+      | nil =>
+        cases fs with
+        | nil => simp [tailEnds, tailSeps, mkSpaces]
+        | cons f2 fs2 => simp at hlen
+      | cons w2 ws2 =>
+        cases fs with
+        | nil => simp at hlen
+        | cons f2 fs2 => simp [tailEnds, tailSeps, mkSpaces]
+
+/-- **the blank runs of a written line** -/
+theorem spaces_lineOf (wd : Char → Nat) (hwd : ∀ c, 1 ≤ wd c) (hw : wd ' ' = 1) (w : Nat) (ws : List Nat) (f : Field) (fs : List Field)
+    (hlen : fs.length = ws.length) (hfit : AllFit wd (w :: ws) (f :: fs)) (hfl : Flush wd ws fs)
+    (hok : CellsOK (f :: fs)) :
+    spacesOfLine wd (lineOf wd true (w :: ws) (f :: fs))
+      = mkSpaces ((leadPad wd f w + byteSize wd f.contents : Nat) :: tailEnds wd (1 + w) ws fs) (tailSeps (1 + w) ws) := by
+  simp only [AllFit] at hfit
+  obtain ⟨_, hsz, hfit'⟩ := hfit
+  obtain ⟨hns, hne⟩ := hok f (by simp)
+  have hlp := leadPad_le wd f w
+  have htext : lineOf wd true (w :: ws) (f :: fs)
+      = (pad (leadPad wd f w) ++ (f.contents ++ pad (trailPad wd f w))) ++ lineOf wd false ws fs := by
+    simp [lineOf, fieldText]
+  have hcol := scan_column0 wd hwd hw (leadPad wd f w) f.contents (trailPad wd f w) hns hne
+  have e1 : (1 : Int) + (leadPad wd f w : Int) + (byteSize wd f.contents : Int) + (trailPad wd f w : Int) = 1 + w := by
+    unfold trailPad; omega
+  rw [e1] at hcol
+  unfold spacesOfLine
+  rw [htext, lineScan_append, scan_tail wd hw ws fs _ (1 + w) _ [] hlen hfit' hfl (fun x hx => hok x (by simp [hx])) hcol]
+  have e2 : (1 : Int) + (leadPad wd f w : Int) + (byteSize wd f.contents : Int) - 1
+      = ((leadPad wd f w + byteSize wd f.contents : Nat) : Int) := by omega
+  simp [e2]
+
+theorem geo_tail (wd : Char → Nat) :
+    ∀ (ws : List Nat) (fs : List Field) (p e lo : Int), fs.length = ws.length → AllFit wd ws fs → CellsOK fs →
+      (∀ c, 1 ≤ wd c) → lo ≤ e → e + 1 ≤ p →
+      Geo lo (e :: tailEnds wd p ws fs) (tailSeps p ws) := by
+  intro ws
+  induction ws with
+  | nil =>
+    intro fs p e lo hlen _ _ _ h1 _
+    cases fs with
+    | nil => simpa [tailEnds, tailSeps, Geo] using h1
+    | cons f fs => simp at hlen
+  | cons w ws ih =>
+    intro fs p e lo hlen hfit hok hwd h1 h2
+    cases fs with
+    | nil => simp at hlen
+    | cons f fs =>
+      simp only [AllFit] at hfit
+      obtain ⟨_, hsz, hfit'⟩ := hfit
+      obtain ⟨_, hne⟩ := hok f (by simp)
+      have hpos := byteSize_pos wd hwd f.contents hne
+      simp only [tailEnds, tailSeps, Geo]
+      refine ⟨h1, h2, ?_⟩
+      exact ih fs (p + w + 1) (p + byteSize wd f.contents) (p + 1) (by simpa using hlen) hfit'
+        (fun x hx => hok x (by simp [hx])) hwd (by omega) (by omega)
+
 end Csvq.Fixed
